@@ -265,11 +265,10 @@ def run_c01(ctx):
     ctx.rule = ("histories = one per distinct reachable state of Incremental.tla ending in a build at the edit bound (TLC BFS, VIEW without history); "
                 "quick: seeded sample; non-trivial = contains an edit or plz-out deletion between two builds; distinct by full history + options")
     # quick: every history with one edit (incl. no-op rebuilds before and after it) + a sample of two-edit ones
-    cfgs = [("GEN_Incremental_1.cfg", {}, True), ("GEN_Incremental_dir1.cfg", {}, True), ("GEN_Incremental.cfg", {}, False),
-            ("GEN_Incremental_dir.cfg", {}, False)]
+    cfgs = [("GEN_Incremental_1.cfg", {}, True), ("GEN_Incremental_dir1.cfg", {}, True), ("GEN_Incremental_ren1.cfg", {}, True),
+            ("GEN_Incremental.cfg", {}, False), ("GEN_Incremental_dir.cfg", {}, False)]
     if not ctx.quick:
-        cfgs = [("GEN_Incremental_1.cfg", {}, True), ("GEN_Incremental_dir1.cfg", {}, True), ("GEN_Incremental.cfg", {}, False),
-                ("GEN_Incremental_dir.cfg", {}, False)]
+        cfgs += [("GEN_Incremental_ren2.cfg", {}, False)]
     common(ctx, "C01", [dict(threads=None)], cfgs, quick_n=80)
 
 
@@ -286,9 +285,7 @@ CLAIM02 = dict(
 def run_c02(ctx):
     ctx.rule = ("histories of Incremental.tla with UseCache=TRUE (edits, plz-out deletion, A->B->A content moves), each replayed with dircompress off and on; "
                 "non-trivial = edit or plz-out deletion between two builds; distinct by history + cache mode")
-    cfgs = [("GEN_Incremental_cache1.cfg", {}, True), ("GEN_Incremental_cache.cfg", {}, False)]
-    if not ctx.quick:
-        cfgs = [("GEN_Incremental_cache1.cfg", {}, True), ("GEN_Incremental_cache.cfg", {}, False)]
+    cfgs = [("GEN_Incremental_cache1.cfg", {}, True), ("GEN_Incremental_rencache1.cfg", {}, True), ("GEN_Incremental_cache.cfg", {}, False)]
     common(ctx, "C02", [dict(cache=True, compress=False), dict(cache=True, compress=True, sample=150 if ctx.quick else 3000)], cfgs, quick_n=40)
 
 
@@ -306,8 +303,8 @@ CLAIM03 = dict(
 def run_c03(ctx):
     ctx.rule = ("histories of Incremental.tla (as C01) replayed e2e; the set of commands started per invocation is read from the action log; "
                 "non-trivial = edit or plz-out deletion between two builds")
-    cfgs = [("GEN_Incremental_1.cfg", {}, True), ("GEN_Incremental_dir1.cfg", {}, True), ("GEN_Incremental.cfg", {}, False)]
+    cfgs = [("GEN_Incremental_1.cfg", {}, True), ("GEN_Incremental_dir1.cfg", {}, True), ("GEN_Incremental_ren1.cfg", {}, True),
+            ("GEN_Incremental.cfg", {}, False)]
     if not ctx.quick:
-        cfgs = [("GEN_Incremental_1.cfg", {}, True), ("GEN_Incremental_dir1.cfg", {}, True), ("GEN_Incremental.cfg", {}, False),
-                ("GEN_Incremental_dir.cfg", {}, False)]
+        cfgs += [("GEN_Incremental_dir.cfg", {}, False), ("GEN_Incremental_ren2.cfg", {}, False)]
     common(ctx, "C03", [dict(threads=None)], cfgs, quick_n=80)
